@@ -232,12 +232,12 @@ Definition next_body (p : parser) (z1 : lx) (c : Z) (need : bool) (state : Z) : 
   let z2 := skip z1 in
   if need && negb (c =? 125) && negb (c =? 93) && negb (c =? 0) then
     fail_at p z2 (pst p) need                                      (* expected comma or closer *)
-  else if c =? 123 then
+  else if (c =? 123) && negb (state =? S_ObjectKey) then
     emit p G_StartObject (mv z2 1) (S_ObjectKey :: pst p) need
   else if c =? 125 then
     if negb (state =? S_ObjectKey) then fail_at p z2 (pst p) need  (* unexpected right brace *)
     else st' <- pop_fix (pst p) ;; emit p G_EndObject (mv z2 1) st' true
-  else if c =? 91 then
+  else if (c =? 91) && negb (state =? S_ObjectKey) then
     emit p G_StartArray (mv z2 1) (S_Array :: pst p) need
   else if c =? 93 then
     if negb (state =? S_Array) then fail_at p z2 (pst p) true      (* unexpected right bracket *)
